@@ -309,11 +309,18 @@ def known_witnesses(ctx):
 
 
 def run(ctx):
+    import time
     nb = 0
+    tm = {"impl": 0.0, "coq": 0.0, "predicates": 0.0, "solve": 0.0}
     for batch in bc.case_batches(ctx, "c11"):
+        t0 = time.time()
         items = bc.run_batch(batch, "c11_%d" % nb)
+        t1 = time.time()
         bc.correspondence(ctx, items, "c11_%d" % nb)
+        t2 = time.time()
         good = check_items(ctx, items)
+        t3 = time.time()
+        tm["impl"] += t1 - t0; tm["coq"] += t2 - t1; tm["predicates"] += t3 - t2
         if nb == 0 and good:
             it = good[len(good) // 2]
             ctx.sample(dict(board=bc.public(it["case"]), game_a=str(it["games"]["game_a"])[:400]))
@@ -323,7 +330,9 @@ def run(ctx):
         solve_items(ctx, small + four, 60, "c11s%d" % nb)
         if bigs:
             solve_items(ctx, bigs, 300, "c11sb%d" % nb)
+        tm["solve"] += time.time() - t3
         nb += 1
+    ctx.notes.append("seconds per phase (board batches): %s" % {k: round(v, 1) for k, v in tm.items()})
     entry = bc.build_entry_items(ctx, "c11e")
     fine = [it for it in entry if check_entry(ctx, it)]
     bc.correspondence(ctx, entry, "c11e")
